@@ -298,7 +298,7 @@ class Array:
                     f"Cannot extend an Array with format '{self._dtype}' from an Array of format '{iterable._dtype}'.")
             # No need to iterate over the elements, we can just append the data
             self.data.append(iterable.data)
-        elif isinstance(iterable, array.array):
+        elif isinstance(iterable, array.array) and self._dtype.scale is None:
             # array.array types are always native-endian, hence the '='
             name_value = utils.parse_single_struct_token('=' + iterable.typecode)
             if name_value is None:
